@@ -634,7 +634,7 @@ func runC20(w *fw.W) {
 				k := 0
 				var bad []string
 				for _, procs := range []int{1, 2, 4, 16} {
-					for rep := 0; rep < 2*scale; rep++ {
+					for rep := 0; rep < 3*scale; rep++ {
 						cmd := exec.Command(self, "debug", "startup")
 						cmd.Env = append(os.Environ(), fmt.Sprintf("GOMAXPROCS=%d", procs))
 						b, err := cmd.CombinedOutput()
@@ -721,5 +721,48 @@ func runC20(w *fw.W) {
 func DebugStartup() {
 	ip := interp.New()
 	ins, errs := evalPlain(ip, "[1, 2, 3]@{|x| x * 2}.sum", nil)
+	// first-time burst: things a process does once (first import of each standard module, first call of each
+	// arity, first use of names) done by 8 evaluations at the same moment, each in its own scope
+	type pw struct{ src, want string }
+	var progs []pw
+	for _, m := range []string{"dummy", "dummy_native"} {
+		progs = append(progs, pw{fmt.Sprintf("import(\"%s\").message", m), `"This is a dummy module."`})
+		progs = append(progs, pw{fmt.Sprintf("{|| invite!(\"%s\"); message.len}()", m), "23"})
+	}
+	progs = append(progs, pw{"import(\"http\").keys.len", "5"})
+	for k := 10; k <= 45; k += 7 {
+		var args []string
+		for i := 1; i <= k; i++ {
+			args = append(args, fmt.Sprint(i))
+		}
+		progs = append(progs, pw{fmt.Sprintf("{[\\9, \\%d, \\0.len]}(%s)", k, strings.Join(args, ", ")), fmt.Sprintf("[9, %d, %d]", k, k)})
+	}
+	progs = append(progs, pw{"{firsttime_a: 1, firsttime_b: 2}.keys", `["firsttime_a", "firsttime_b"]`}, pw{"`{\"firsttime_j\": 5}`.decJSON.firsttime_j", "5"})
+	var wg sync.WaitGroup
+	var mu sync.Mutex
+	var bad []string
+	start := make(chan struct{})
+	for g := 0; g < 8; g++ {
+		wg.Add(1)
+		go func(g int) {
+			defer wg.Done()
+			<-start
+			for i := range progs {
+				p := progs[(i+g*3)%len(progs)]
+				got, e := evalPlain(ip, p.src, nil)
+				if e != "" || got != p.want {
+					mu.Lock()
+					bad = append(bad, fmt.Sprintf("%s → %s %s, want %s", p.src, got, e, p.want))
+					mu.Unlock()
+				}
+			}
+		}(g)
+	}
+	close(start)
+	wg.Wait()
+	if len(bad) > 0 {
+		fmt.Println("startup-burst-failed", bad[0])
+		return
+	}
 	fmt.Println("startup-ok", ins, errs)
 }
